@@ -157,6 +157,12 @@ def default_knobs(rng: Rng, profile: str) -> Dict[str, Any]:
     k["odd_names"] = rng.chance(0.4 if profile == "callgraph" else 0.2)
     k["symbol_target"] = rng.choice([127, 128, 129, 255, 256, 257]) if (profile in ("loader", "symtab") and rng.chance(0.15)) else 0
     k["zero_dur_bwd_edge"] = profile == "callgraph" and rng.chance(0.3)
+    # (round 7) a device-side copy of every step annotation (Kineto with GPU annotations on), correlation ids of
+    # large magnitude, a backward annotation nested in another, host thread ids that equal a device's (id, stream)
+    k["mirror_steps"] = profile in ("loader", "symtab") and rng.chance(0.12)
+    k["corr_base"] = rng.choice([2**31 - 60, 2**32 + 5, 2**53 - 40, 2**53 + 1, 2**62]) if (profile in ("loader", "symtab") and rng.chance(0.1)) else 0
+    k["nested_bwd"] = profile == "callgraph" and rng.chance(0.15)
+    k["host_ids_as_device"] = profile == "callgraph" and rng.chance(0.08)
     k["long_kernels"] = profile in ("callgraph", "loader", "env") and rng.chance(0.12)
     k["name_explosion"] = 0
     k["zero_dur_kernels"] = (not k["fractional"]) and profile in ("callgraph", "loader", "symtab", "env") and rng.chance(0.3)
@@ -205,6 +211,13 @@ class _RankGen:
         self.main_tid: Any = None
         # per-process counters: ranks reuse each other's correlation ids unless the knob separates them
         self.corr = 100 + rng.below(50) + (0 if knobs.get("corr_overlap") else rank_pos * 100000)
+        if knobs.get("corr_base"):
+            self.corr = int(knobs["corr_base"]) + (0 if knobs.get("corr_overlap") else rank_pos * 100000)
+        if knobs.get("host_ids_as_device"):
+            # a containerised trainer: process id and thread id of the host thread equal the device id and the
+            # stream id of its device activities
+            self.dev = 7
+            self.host_pid = 7
         self.ext_id = 1
         # entries: dicts with "_t" (sort time in ticks), "_grp" (host/device/other), event body
         self.entries: List[Dict[str, Any]] = []
@@ -530,7 +543,18 @@ class _RankGen:
                             e = s + self.dur_ticks(10, 60) + n_ops * 10 * self.unit
                             bwd_windows.append((s, e))
                             return e
-                        if k["bwd_annotation"]:
+                        if k["bwd_annotation"] and k.get("nested_bwd"):
+                            def outer_body(s: int) -> int:
+                                e = bwd_body(s)
+                                # a second backward annotation strictly inside the first: operators of the autograd
+                                # thread behind it lie within the outer one only
+                                q = (e - s) // 4
+                                if q >= 2 * self.min_dur() + 2:
+                                    self.add_x("host", "user_annotation", "## backward ##", self.host_pid, main_tid,
+                                               s + q, q, {"External id": self.ext_id} if self.rng.chance(0.5) else None)
+                                return e
+                            cur = self.emit_annotation(self.host_pid, main_tid, cur, "## backward ##", outer_body)
+                        elif k["bwd_annotation"]:
                             cur = self.emit_annotation(self.host_pid, main_tid, cur, "## backward ##", bwd_body)
                         else:
                             cur = bwd_body(cur)
@@ -658,6 +682,14 @@ class _RankGen:
                                self.dev, s, r.randint(0, span_end // 2), max(span_end // 3, self.min_dur()),
                                {"External id": self.ext_id})
 
+        if k.get("mirror_steps"):
+            # Kineto with GPU annotations on records a finished step a second time on the device side: same name,
+            # no stream argument, starting later and ending earlier than the host annotation
+            for si, (s0, e0) in enumerate(step_windows):
+                q = (e0 - s0) // 4
+                if q >= max(2 * self.unit, 2):
+                    self.add_x("device", "gpu_user_annotation", self.step_names[si], self.dev, self.streams[0],
+                               s0 + q, q, {"External id": self.ext_id} if r.chance(0.5) else None)
         if k.get("duplicate_device"):
             devs = [e for e in self.entries if e["_grp"] == "device" and e["ev"].get("cat") in ("kernel", "gpu_memcpy")
                     and "correlation" in (e["ev"].get("args") or {})]
